@@ -473,6 +473,15 @@ def run(ctx):
             P = impl['unicast' if pname.startswith('UNI') else 'multicast']['params']
             inj.append({'id': f'm{j}', 'params': pname, 'at_ms': 0 if j == 0 else ctx.rng.choice([0, 5, 37, 120, 333, 800, 1500]),
                         'd0': ctx.rng.randint(0, P[0]), 'g': ctx.rng.randint(P[2], P[3] - 1)})
+        # a message enqueued by another thread WHILE a datagram is handed to the socket (d0 = 0: its first entry is
+        # due at the clock value of the transmission in progress), and sleeps that overshoot to exactly a due time
+        if ctx.rng.random() < 0.5:
+            pname = ctx.rng.choice(['UNICAST_REPEAT_PARAMS', 'MULTICAST_REPEAT_PARAMS'])
+            P = impl['unicast' if pname.startswith('UNI') else 'multicast']['params']
+            inj.append({'id': 'x', 'params': pname, 'at_ms': 0, 'at_send': ctx.rng.randint(1, 6),
+                        'd0': ctx.rng.choice([0, 0, 0, 1, ctx.rng.randint(0, P[0])]), 'g': ctx.rng.randint(P[2], P[3] - 1)})
+        if ctx.rng.random() < 0.6:
+            inj[0]['snap'] = True
         sl_cases.append(inj)
     r = ctx.impl('c15_impl', {'cap': 3, 'dedup': [], 'grid': False, 'sendloop': sl_cases})
     if r.get('_crash'):
@@ -537,7 +546,9 @@ def run(ctx):
                   events_per_case_max=max((len(c[3]['events']) for c in m_cases), default=0),
                   transmissions=sum(len(c[3]['sent_x']) for c in m_cases))
         ctx.count('sendloop', len(sl_cases), [json.dumps(x, sort_keys=True) for x in sl_cases],
-                  messages_in_flight={str(k): sum(1 for c in sl_cases if len(c) == k) for k in (1, 2, 3, 4)},
+                  messages_in_flight={str(k): sum(1 for c in sl_cases if len(c) == k) for k in (1, 2, 3, 4, 5)},
+                  enqueued_during_a_transmission=sum(1 for c in sl_cases if any(x.get('at_send') for x in c)),
+                  sleeps_overshoot_to_due_time=sum(1 for c in sl_cases if c[0].get('snap')),
                   lateness_histogram_10ms={str(k): v for k, v in sorted(late_hist.items())})
         if sl_cases:
             ctx.sample({'stream': 'sendloop', 'messages': sl_cases[0], 'impl': r['sendloop'][0]})
